@@ -96,7 +96,12 @@ def gen_variant(rng, k):
         if x == int(x) and c == 1:
             return f"{int(x)}.0"
         return repr(x)
-    geom = {k_: round(rng.uniform(-2, 2), 3) if rng.random() < 0.7 else float(rng.randint(-2, 2)) for k_ in ["a1", "a2", "b", "c1", "c2", "c3", "c4"]}
+    def length():
+        u = rng.random()
+        if u < 0.12:                                        # small is not zero: fractions of a millimetre down to nanometres
+            return round(rng.uniform(-1, 1) * 10 ** -rng.randint(3, 8), 10)
+        return round(rng.uniform(-2, 2), 3) if u < 0.75 else float(rng.randint(-2, 2))
+    geom = {k_: length() for k_ in ["a1", "a2", "b", "c1", "c2", "c3", "c4"]}
     lines = ["opw_kinematics_geometric_parameters:"]
     keys = list(geom)
     if k % 11 == 3:
